@@ -148,11 +148,15 @@ pub fn schnorr_sig(p: &mut Prng) -> SchnorrSig {
 }
 
 pub fn control_block(p: &mut Prng) -> ControlBlock {
-    let depth = *p.pick(&[0usize, 1, 2, 3, 128]);
-    let mut b = vec![leaf_version(p).as_u8() | (p.u8() & 1)];
-    b.extend(xonly(p).serialize());
-    b.extend(p.bytes(32 * depth));
-    ControlBlock::from_slice(&b).expect("well-formed control block")
+    let depth = *p.pick(&[0usize, 1, 2, 3, 127, 128]);
+    // built from its parts, not through the parser under test: a parser that refuses a well-formed block (say, one with
+    // the maximal 128 nodes) must show up as a failed round trip, not as a generator that cannot build its workload
+    ControlBlock {
+        leaf_version: leaf_version(p),
+        output_key_parity: if p.coin() { zkp::Parity::Even } else { zkp::Parity::Odd },
+        internal_key: xonly(p),
+        merkle_branch: elements::taproot::TaprootMerkleBranch::from_inner((0..depth).map(|_| TapNodeHash::from_byte_array(p.arr32())).collect()).expect("at most 128 nodes"),
+    }
 }
 
 /// a random binary tree shape with `n` leaves as a DFS depth sequence
@@ -798,6 +802,16 @@ pub fn pset_byzantine(p: &mut Prng, reference: &[u8]) -> Option<Delivery> {
                         return None;
                     }
                     let st = *p.pick(&[0x01u8, 0x03, 0x04, 0x05, 0x07]);
+                    if p.coin() {
+                        // ... or all but one: every single item alone is "partially blinded" too
+                        let mut edits: Vec<Edit> = m.pairs.iter().filter(|x| [0x01u8, 0x03, 0x04, 0x05, 0x07].iter().any(|o| *o != st && is_pset_prop(x, *o))).map(|x| Edit { label: "byz.missing".into(), pos: x.start, remove: x.end - x.start, insert: vec![] }).collect();
+                        edits.sort_by(|a, b| b.pos.cmp(&a.pos));
+                        // the explicit amount / asset forms stay, so the output is still complete as an unblinded one
+                        let has_explicit = m.pairs.iter().any(|x| x.key_type == 0x03) && m.pairs.iter().any(|x| is_pset_prop(x, 0x02));
+                        if has_explicit || st == 0x01 || st == 0x03 {
+                            return Some(edits);
+                        }
+                    }
                     let pr = m.pairs.iter().find(|x| is_pset_prop(x, st))?;
                     Some(vec![Edit { label: "byz.missing".into(), pos: pr.start, remove: pr.end - pr.start, insert: vec![] }])
                 }
